@@ -156,6 +156,11 @@ def run(ctx, rep):
     from props import storage_forms as sfd_
     sfd_.segment_delete_files(ctx, rep, 'R03.k')
 
+    # ------------------------------------------------------------ R03.l writers (which create missing files) are opened before readers
+    rep.rule('R03.l', 'segment files are opened for writing (which creates a missing file) before they are opened for reading, at load and at persist: a crash between the creation of the log file and of the index file must not make the segment unloadable', floor=2, analysis='A2 ordering')
+    from props import storage_forms as sfw_
+    sfw_.writers_before_readers(ctx, rep, 'R03.l')
+
 
 def dir_pairing(ctx, rep, rid):
     import forms as forms_
